@@ -3,11 +3,11 @@
    chronological ConnectionStateChangedEvent stream.  Theorems quantify over EVERY event list.
 
    The statements of the property text are FALSE of the faithful model of today's code (findings F14,
-   F15, F27): *_refuted.  What holds is proved as *_partial; the premises are ghost flags that the
+   F15, C10-N1): *_refuted.  What holds is proved as *_partial; the premises are ghost flags that the
    model sets exactly in the three defective steps:
      late_accept  : accept() ran set_state(CONNECTED) on a connection that is CLOSING/CLOSED   (F14)
-     late_connect : connect() ran set_state(CONNECTED) on a connection closed meanwhile        (F27)
-     race_dc      : an effective disconnect() ran while the attempt was in open_connection     (F27)
+     late_connect : connect() ran set_state(CONNECTED) on a connection closed meanwhile        (C10-N1)
+     race_dc      : an effective disconnect() ran while the attempt was in open_connection     (C10-N1)
      abandoned    : the attempt was cancelled in open_connection on a non-closing connection   (F15) *)
 From Slsk Require Import Base.Tac.
 From Slsk Require Import C10.Model C10.Proofs.
